@@ -52,10 +52,6 @@ def _run(ctx):
     res = lib.vh(ctx, "configrt", beh, props=[pid])
     r = res["per_property"][pid]
     ctx.extra["behaviours_exported"] = n
-    mism = r.get("notes", {}).get("accept_mismatch") or []
-    if mism and not ctx.replay:
-        raise lib.ToolError("the model expects settings to be accepted that the real parsers refuse (they would "
-                            "silently drop out of the test set): " + "; ".join(mism[:5]))
     if r.get("evaluations", 0) == 0:
         raise lib.ToolError("no configuration was accepted by the real code: nothing was checked")
     ctx.assumptions += [
@@ -76,7 +72,14 @@ def _run(ctx):
             "behaviour whose configuration differs from the default, distinct by the resulting configuration (changed fields "
             "and their values), not by the way it was entered"
             % ("; all triples at typical values; 20000 random combinations of 2-6 settings over all classes" if ctx.thorough else ""))
-    return lib.finish(ctx, r, rule, exhaustive=True)
+    rc = lib.finish(ctx, r, rule, exhaustive=True)
+    # Violations come first.  Without one, an acceptance mismatch between model and code is a model-fidelity
+    # error: those settings would silently drop out of the test set.
+    mism = r.get("notes", {}).get("accept_mismatch") or []
+    if rc == 0 and mism and not ctx.replay:
+        raise lib.ToolError("the model expects settings to be accepted that the real parsers refuse (not a test case "
+                            "for the property, but the model must be brought in line): " + "; ".join(mism[:5]))
+    return rc
 
 
 _NOTE = ("ConfigRT.tla is an option table model (kind, command-line domain, file range, printing rule per key) used for "
